@@ -5,7 +5,9 @@ import json
 from common import (OUT, Report, ToolError, build_harness, digest, log, read_ndjson, run_tlc,
                     seed, split_runs, tlc_printed, tpv, validate_trace)
 
+RESTART_KINDS = ("Restart", "PowerCycle", "SetAccess")
 NEED_ACTIONS = {
+    "C09": ["DoRestart", "DoPowerCycle", "DoCycle", "DoSimFault"],
     "C06": ["DoAdvance", "DoSetSingle", "DoCycle"],
     "C07": ["DoSetSrc", "DoCycle"],
     "C08": ["DoInject", "DoFailDriver", "DoWatchdog", "DoSimFault", "DoCycle", "DoRefusedCycle"],
@@ -25,10 +27,19 @@ def safe_bits(cfg):
     return bits
 
 
-def owners(b, ev, cfg):
+def owners(b, ev, cfg, restarted):
     """Which property a rejected event belongs to (a rejection is reported by exactly the
     checks whose property statement it contradicts)."""
     why = set(b["why"])
+    if b["kind"] in RESTART_KINDS or restarted:
+        # the event is a restart / power cycle / access-path write, or the run was restarted
+        # before it: the divergence is about what a restart preserves, resets or disconnects
+        own = {"C09"}
+        if why == {"type-tag"}:
+            own = {"C03"}
+        return own
+    if why & {"retain-variables", "access-path"}:
+        return {"C09"}
     if b["kind"] in ("Watchdog", "SimFault"):
         return {"C08"}
     if b["kind"] in ("DirectWrite", "DirectRead"):
@@ -65,7 +76,7 @@ def gen_scripts(prop, tier, work):
     n_rand = 500 if tier == "quick" else 6000
     n_sim = 150 if tier == "quick" else 2500
     rnd = work / "scripts_random.ndjson"
-    tpv(["cycle-gen", "--seed", seed(), "--runs", n_rand, "--out", rnd])
+    tpv(["cycle-gen", "--seed", seed(), "--runs", n_rand, "--out", rnd] + (["--restarts", "1"] if prop == "C09" else []))
     scripts = read_ndjson(rnd)
     g = run_tlc("MCRuntimeCycle", "GenRuntimeCycle", workers=1, simulate=n_sim, depth=13, seed_=seed(),
                 timeout=900, tag=f"gen-{prop}")
@@ -123,11 +134,22 @@ def run(prop, tier, replay):
     for b in verdict["bad"]:
         ri, ev = line_run[b["line"]]
         cfg = runs[ri][0]["cfg"]
-        own = owners(b, ev, cfg)
+        before = runs[ri][: (b["line"] - sum(len(x) for x in runs[:ri])) - 1]
+        restarted = any(e["a"] in ("Restart", "PowerCycle") for e in before)
+        own = owners(b, ev, cfg, restarted)
         if prop not in own:
             continue
         mine += 1
         key = "+".join(sorted(b["why"])) + f"@{b['kind']}:{b['spec']}"
+        if b["kind"] == "PowerCycle" and b["why"] == ["retain-variables"] and before:
+            # which variables did not survive?  (narrow key for the known finding)
+            prevc = next((e["ctr"] for e in reversed(before) if "ctr" in e), None)
+            if prevc is not None:
+                lost = [c for c in cfg["counters"] if c["qual"] in ("retain", "persistent")
+                        and ev["ctr"][c["name"]] != prevc[c["name"]]]
+                wrong = [c for c in cfg["counters"] if c["qual"] not in ("retain", "persistent") and ev["ctr"][c["name"]] != 0]
+                if lost and not wrong and all(c["scope"] == "program" for c in lost):
+                    key = "powercycle:program-level-retain-lost"
         script = next((s for s in allscripts if digest(s["cfg"]) == digest(cfg)), None)
         rep.violation(key, {"script": script, "rejected_event": ev, "why": b["why"], "spec_result": b["spec"],
                             "spec_output_image": b["expQ"], "trace_line": b["line"],
@@ -136,6 +158,7 @@ def run(prop, tier, replay):
     ncyc = sum(1 for r in rows if r["a"] == "Cycle")
     nfault = sum(1 for r in rows if r["a"] == "Cycle" and r["res"] == "fault")
     nref = sum(1 for r in rows if r["a"] == "Cycle" and r["res"] == "refused")
+    nrs = sum(1 for r in rows if r["a"] in ("Restart", "PowerCycle"))
     sample = [r for r in rows if r["a"] == "Cycle"][:2]
     cov = {
         "states": (mc or {}).get("distinct", 1) or 1,
@@ -149,6 +172,7 @@ def run(prop, tier, replay):
         "cycles_validated": ncyc,
         "fault_cycles": nfault,
         "refused_cycles": nref,
+        "restarts_and_power_cycles": nrs,
         "rejected_events_total": len(verdict["bad"]),
         "rejected_events_this_property": mine,
         "evaluations": len(runs),
